@@ -356,6 +356,12 @@ func (w *World) obsRegionCleanTo(u *Unit, o types.Object, def ast.Expr, only *fl
 	// that only read through it. Such storage changes by assignments in this function only: channel operations and
 	// calls that get copies of its parts do not matter.
 	owned := w.valueOwned(u, def, roots)
+	// a call-free definition: what it reads changes, as far as this check goes, by stores in this function only (as it
+	// always was for such locals) — to a variable it mentions, or to a field it reads through whatever variable
+	pure := u.C.PureCand(o)
+	if pure {
+		owned = true
+	}
 	var muts []*flow.Site
 	for _, s := range u.Sites {
 		if s == D || s.Deferred {
@@ -368,6 +374,12 @@ func (w *World) obsRegionCleanTo(u *Unit, o types.Object, def ast.Expr, only *fl
 		case flow.SSend, flow.SRecv:
 			muts = append(muts, s) // synchronisation: another goroutine's writes become visible
 		case flow.SStore:
+			if pure && s.Field != nil && reads != nil && reads[s.Field] {
+				if _, plain := ast.Unparen(s.LHS).(*ast.Ident); !plain {
+					muts = append(muts, s)
+					continue
+				}
+			}
 			if r, _ := u.C.RootVar(s.LHS); r != nil && roots[r] {
 				if ix, isIx := ast.Unparen(s.LHS).(*ast.IndexExpr); isIx && lenOnly[r] {
 					if xid, plain := ast.Unparen(ix.X).(*ast.Ident); plain && info.ObjectOf(xid) == r {
